@@ -961,7 +961,7 @@ func emitScrolled(r *hx.Run, rng *gen.Rng, c dctx, w *wspec) {
 		if _, err := d.Draw(ctx); err != nil {
 			return
 		}
-		for k := rng.Range(1, 4); k > 0; k-- {
+		for k := rng.Range(2, 6); k > 0; k-- {
 			switch rng.Intn(4) {
 			case 0:
 				n := uint(rng.Intn(len(w.kids) + 1))
@@ -978,8 +978,10 @@ func emitScrolled(r *hx.Run, rng *gen.Rng, c dctx, w *wspec) {
 				d.SetPendingScroll(n)
 				acts = append(acts, fmt.Sprintf("scroll%d", n))
 			}
+			// a Draw after every call: the scroll state (top item, offset) only moves in Draw, and
+			// insertChildren only runs when a later Draw scrolls up above a top item > 0
+			s, _ = d.Draw(ctx)
 		}
-		s, _ = d.Draw(ctx)
 	})
 	cur := "n"
 	if w.cursor {
